@@ -28,6 +28,34 @@ MUTANTS = [
     {"name": "C16-close-getter-returns-open", "props": ["C16"], "edits": [("src/data_item.rs", "    fn close(&self) -> f64 {\n        self.close", "    fn close(&self) -> f64 {\n        self.open")]},
     {"name": "C16-aggregate-swaps-high-low", "props": ["C16"], "edits": [("src/data_item.rs", "                    open,\n                    high,\n                    low,", "                    open,\n                    high: low,\n                    low: high,")]},
     {"name": "C16-setter-open-also-close", "props": ["C16"], "edits": [("src/data_item.rs", "        self.open = Some(val);\n", "        self.open = Some(val);\n        self.close = Some(val);\n")]},
+    # ---- C02
+    {"name": "C02-ema-k-2-over-n", "props": ["C02"], "edits": [(I + "exponential_moving_average.rs", "k: 2.0 / (period as f64 + 1.0),", "k: 2.0 / (period as f64),")]},
+    {"name": "C02-ema-seed-kx", "props": ["C02"], "edits": [(I + "exponential_moving_average.rs", "            self.current = input;\n        } else {", "            self.current = self.k * input;\n        } else {")]},
+    {"name": "C02-ema-one-minus-k-on-input", "props": ["C02"], "edits": [(I + "exponential_moving_average.rs", "self.k * input + (1.0 - self.k) * self.current", "(1.0 - self.k) * input + self.k * self.current")]},
+    {"name": "C02-tr-bar-uses-close-not-prev", "props": ["C02"], "edits": [(I + "true_range.rs", "let dist2 = (bar.high() - prev_close).abs();", "let dist2 = (bar.high() - bar.close()).abs();")]},
+    {"name": "C02-tr-stores-high", "props": ["C02"], "edits": [(I + "true_range.rs", "self.prev_close = Some(bar.close());", "self.prev_close = Some(bar.high());")]},
+    {"name": "C02-macd-ctor-swaps-fast-slow", "props": ["C02", "C15"], "edits": [(I + "moving_average_convergence_divergence.rs", "            fast_ema: Ema::new(fast_period)?,\n            slow_ema: Ema::new(slow_period)?,", "            fast_ema: Ema::new(slow_period)?,\n            slow_ema: Ema::new(fast_period)?,")]},
+    {"name": "C02-kc-bar-ema-fed-close", "props": ["C02", "C15"], "edits": [(I + "keltner_channel.rs", "let average = self.ema.next(typical_price);", "let average = self.ema.next(input.close());")]},
+    {"name": "C02-kc-atr-period-plus-1", "props": ["C02", "C15"], "edits": [(I + "keltner_channel.rs", "atr: AverageTrueRange::new(period)?,", "atr: AverageTrueRange::new(period + 1)?,")]},
+    {"name": "C02-ce-long-from-min", "props": ["C02", "C15"], "edits": [(I + "chandelier_exit.rs", "            long: max - atr,", "            long: min - atr,")]},
+    {"name": "C02-macd-histogram-reversed", "props": ["C02", "C09"], "edits": [(I + "moving_average_convergence_divergence.rs", "let histogram = macd - signal;", "let histogram = signal - macd;")]},
+    {"name": "C02-atr-bar-path-uses-scalar-tr", "props": ["C02"], "edits": [(I + "average_true_range.rs", "impl<T: High + Low + Close> Next<&T> for AverageTrueRange {\n    type Output = f64;\n\n    fn next(&mut self, input: &T) -> Self::Output {\n        self.ema.next(self.true_range.next(input))", "impl<T: High + Low + Close> Next<&T> for AverageTrueRange {\n    type Output = f64;\n\n    fn next(&mut self, input: &T) -> Self::Output {\n        self.ema.next(self.true_range.next(input.close()))")]},
+    # ---- C03
+    {"name": "C03-cci-constant-0.15", "props": ["C03"], "edits": [(I + "commodity_channel_index.rs", "(mad * 0.015)", "(mad * 0.15)")]},
+    {"name": "C03-rsi-seeds-zero", "props": ["C03"], "edits": [(I + "relative_strength_index.rs", "            up = 0.1;\n            down = 0.1;", "            up = 0.0;\n            down = 0.0;")]},
+    {"name": "C03-rsi-down-sign", "props": ["C03", "C07"], "edits": [(I + "relative_strength_index.rs", "down = self.prev_val - input;", "down = input - self.prev_val;")]},
+    {"name": "C03-fs-bar-max-fed-low", "props": ["C03", "C15"], "edits": [(I + "fast_stochastic.rs", "let highest = self.maximum.next(input.high());", "let highest = self.maximum.next(input.low());")]},
+    {"name": "C03-fs-neutral-zero", "props": ["C03", "C08"], "edits": [(I + "fast_stochastic.rs", "            // therefore it makes sense to return 50\n            50.0", "            // therefore it makes sense to return 50\n            0.0")]},
+    {"name": "C03-ppo-div-fast", "props": ["C03"], "edits": [(I + "percentage_price_oscillator.rs", "(fast_val - slow_val) / slow_val * 100.0", "(fast_val - slow_val) / fast_val * 100.0")]},
+    {"name": "C03-obv-subtracts-on-rise", "props": ["C03"], "edits": [(I + "on_balance_volume.rs", "self.obv = self.obv + input.volume();", "self.obv = self.obv - input.volume();")]},
+    {"name": "C03-obv-compares-with-obv", "props": ["C03"], "edits": [(I + "on_balance_volume.rs", "if input.close() > self.prev_close {", "if input.close() > self.obv {")]},
+    {"name": "C03-rsi-prev-not-updated-first", "props": ["C03"], "edits": [(I + "relative_strength_index.rs", "        self.prev_val = input;\n        let up_ema", "        if up != 0.1 {\n            self.prev_val = input;\n        }\n        let up_ema")]},
+    # ---- C15
+    {"name": "C15-bb-sd-period-plus-1", "props": ["C15"], "edits": [(I + "bollinger_bands.rs", "sd: Sd::new(period)?,", "sd: Sd::new(period + 1)?,")]},
+    {"name": "C15-slowstoch-ema-wrong-period", "props": ["C15", "C03"], "edits": [(I + "slow_stochastic.rs", "ema: ExponentialMovingAverage::new(ema_period)?,", "ema: ExponentialMovingAverage::new(stochastic_period)?,")]},
+    {"name": "C15-ce-max-period-doubled", "props": ["C15", "C02"], "edits": [(I + "chandelier_exit.rs", "max: Maximum::new(period)?,", "max: Maximum::new(period * 2)?,")]},
+    {"name": "C15-atr-steps-ema-twice", "props": ["C15", "C02"], "edits": [(I + "average_true_range.rs", "    fn next(&mut self, input: f64) -> Self::Output {\n        self.ema.next(self.true_range.next(input))", "    fn next(&mut self, input: f64) -> Self::Output {\n        let tr = self.true_range.next(input);\n        self.ema.next(tr);\n        self.ema.next(tr)")]},
+    {"name": "C15-cci-sma-fed-close", "props": ["C15", "C03"], "edits": [(I + "commodity_channel_index.rs", "let sma = self.sma.next(tp);", "let sma = self.sma.next(input.close());")]},
 ]
 BENIGN = [
     {"name": "benign-build-conjunct-order", "props": ["C16"], "edits": [("src/data_item.rs", "            if low <= open\n                && low <= close", "            if low <= close\n                && low <= open")]},
@@ -35,4 +63,12 @@ BENIGN = [
     {"name": "benign-sma-reset-fill", "props": ["C04", "C18", "C05"], "edits": [(I + "simple_moving_average.rs", "        for i in 0..self.period {\n            self.deque[i] = 0.0;\n        }", "        self.deque.fill(0.0);")]},
     {"name": "benign-ema-new-if", "props": ["C11", "C04"], "edits": [(I + "exponential_moving_average.rs", "        match period {\n            0 => Err(TaError::InvalidParameter),\n            _ => Ok(Self {\n                period,\n                k: 2.0 / (period as f64 + 1.0),\n                current: 0.0,\n                is_new: true,\n            }),\n        }", "        if period == 0 {\n            return Err(TaError::InvalidParameter);\n        }\n        Ok(Self {\n            period,\n            k: 2.0 / (period as f64 + 1.0),\n            current: 0.0,\n            is_new: true,\n        })")]},
     {"name": "benign-reset-reorder", "props": ["C04"], "edits": [(I + "weighted_moving_average.rs", "        self.index = 0;\n        self.count = 0;\n        self.weight = 0.0;", "        self.weight = 0.0;\n        self.count = 0;\n        self.index = 0;")]},
+    {"name": "benign-ema-incremental-form", "props": ["C02", "C15", "C03"], "edits": [(I + "exponential_moving_average.rs", "self.current = self.k * input + (1.0 - self.k) * self.current;", "self.current = self.current + self.k * (input - self.current);")]},
+    {"name": "benign-ema-if-not-is-new", "props": ["C02", "C04"], "edits": [(I + "exponential_moving_average.rs", "        if self.is_new {\n            self.is_new = false;\n            self.current = input;\n        } else {\n            self.current = self.k * input + (1.0 - self.k) * self.current;\n        }", "        if !self.is_new {\n            self.current = self.k * input + (1.0 - self.k) * self.current;\n        } else {\n            self.is_new = false;\n            self.current = input;\n        }")]},
+    {"name": "benign-kc-reorder-calls", "props": ["C02", "C15"], "edits": [(I + "keltner_channel.rs", "        let atr = self.atr.next(input);\n        let average = self.ema.next(input);", "        let average = self.ema.next(input);\n        let atr = self.atr.next(input);")]},
+    {"name": "benign-max3-nested-max", "props": ["C02", "C05"], "edits": [(I + "true_range.rs", "max3(dist1, dist2, dist3)", "dist3.max(dist1.max(dist2))")]},
+    {"name": "benign-tp-times-third", "props": ["C03", "C15"], "edits": [(I + "commodity_channel_index.rs", "(tp - sma) / (mad * 0.015)", "(tp - sma) / (0.015 * mad)")]},
+    {"name": "benign-obv-if-structure", "props": ["C03"], "edits": [(I + "on_balance_volume.rs", "        if input.close() > self.prev_close {\n            self.obv = self.obv + input.volume();\n        } else if input.close() < self.prev_close {\n            self.obv = self.obv - input.volume();\n        }", "        let c = input.close();\n        if c < self.prev_close {\n            self.obv -= input.volume();\n        } else if c > self.prev_close {\n            self.obv += input.volume();\n        }")]},
+    {"name": "benign-rsi-commuted", "props": ["C03"], "edits": [(I + "relative_strength_index.rs", "100.0 * up_ema / (up_ema + down_ema)", "up_ema * 100.0 / (down_ema + up_ema)")]},
+    {"name": "benign-ppo-macd-local", "props": ["C03"], "edits": [(I + "percentage_price_oscillator.rs", "let ppo = (fast_val - slow_val) / slow_val * 100.0;", "let diff = fast_val - slow_val;\n        let ppo = 100.0 * diff / slow_val;")]},
 ]
